@@ -362,7 +362,7 @@ func (ex *Exec) havocAll(st *State, why string) {
 		}
 	}
 	// ghost keys that are not materialised keep their default; materialise them first
-	for k := range ex.keySort {
+	for _, k := range sortedKeys(ex.keySort) {
 		if strings.HasPrefix(k, "X|") {
 			if _, ok := keep[k]; !ok {
 				keep[k] = ex.defaultTerm(k, st.Base)
